@@ -1,33 +1,58 @@
 package main
 
-// Generator "timelayouts" (G6, C19): the layout strings of the date/time helpers in
-// model/commondatatypes_additions.go - the layout NewDateTimeTypeFromTime formats with, the layouts
-// the three GetTime methods try in order, and whether the formatter rounds to the second and converts
-// to UTC. Emitted as token lists (Nat codes) so that the glue theorems of Spine/Props/C19Layouts.lean
-// are plain `decide`. Fails loudly if an anchor disappears.
+// Generator "timelayouts" (G6, C19): facts about the date/time helpers of
+// model/commondatatypes_additions.go for the glue theorems of Spine/Props/C19Layouts.lean.
+//
+// Two independent derivations:
+//
+//  (dyn) DYNAMIC, authoritative: the real code (compiled in from the tree under test) is probed with a
+//        fixed universe of text shapes - which shapes (*DateTimeType).GetTime, (*DateType).GetTime and
+//        (*TimeType).GetTime accept and read as the right instant, which shape NewDateTimeTypeFromTime
+//        writes, whether it rounds to the second and converts to UTC. No source text involved, so no
+//        refactoring can disturb it.
+//
+//  (ast) STATIC cross-check: the layout strings in the source, found structurally - the exported
+//        names GetTime / NewDateTimeTypeFromTime are the only anchors:
+//          * the layouts of a GetTime are "the []string that reaches the loop that calls
+//            time.ParseInLocation / time.Parse with the loop variable as layout": ranged over in the
+//            method itself or in a package function it calls (any name), where the ranged parameter is
+//            traced back to the argument of the call; the []string may be a composite literal, a local
+//            variable, or a package-level var/const in any file of the package; elements may be
+//            literals or named string constants;
+//          * the formatting layout is the argument of the .Format call in NewDateTimeTypeFromTime or in
+//            a package function it calls, a literal, a named constant or a constant of package time.
+//        What cannot be recovered is emitted as "unknown" (astKnown := false); the theorems over the
+//        static tables are guarded by astKnown, so a refactoring can make the cross-check vacuous but
+//        never break an obligation, while a layout that IS found and contradicts the glue still does.
+//
+// Layouts / shapes as token lists: 1 = fraction (optional ".999999999" in a layout, present digits in a
+// probe text), 2 = literal "Z", 3 = numeric zone "-07:00" / "Z07:00", 4 = the text "+07:00" (not a zone
+// element of package time: it only matches itself), any other byte b = 100 + b.
 
 import (
 	"fmt"
 	"go/ast"
 	"go/parser"
 	"go/token"
+	"os"
 	"path/filepath"
+	"sort"
 	"strconv"
 	"strings"
+	"time"
+
+	"github.com/enbility/spine-go/model"
 )
 
 func init() { register("timelayouts", genTimeLayouts) }
 
-// layoutTokens abstracts a Go time layout: 1 = optional fraction ".999999999", 2 = literal "Z",
-// 3 = numeric zone "-07:00", 4 = the text "+07:00" (NOT a zone element of package time: it only
-// matches itself), any other byte b = 100 + b.
 func layoutTokens(l string) []int {
 	var out []int
 	for len(l) > 0 {
 		switch {
-		case strings.HasPrefix(l, ".999999999"):
+		case strings.HasPrefix(l, ".999999999"), strings.HasPrefix(l, ".000000000"), strings.HasPrefix(l, ",999999999"):
 			out, l = append(out, 1), l[len(".999999999"):]
-		case strings.HasPrefix(l, "-07:00"):
+		case strings.HasPrefix(l, "-07:00"), strings.HasPrefix(l, "Z07:00"):
 			out, l = append(out, 3), l[len("-07:00"):]
 		case strings.HasPrefix(l, "+07:00"):
 			out, l = append(out, 4), l[len("+07:00"):]
@@ -48,105 +73,502 @@ func leanNatList(xs []int) string {
 	return "[" + strings.Join(p, ", ") + "]"
 }
 
-func genTimeLayouts(outDir string) (string, error) {
-	file := filepath.Join(RepoDir(), "model", "commondatatypes_additions.go")
+func leanListOfLists(xss [][]int) string {
+	if len(xss) == 0 {
+		return "[]"
+	}
+	var p []string
+	for _, xs := range xss {
+		p = append(p, "  "+leanNatList(xs))
+	}
+	return "[\n" + strings.Join(p, ",\n") + "\n]"
+}
+
+// ---------------------------------------------------------------- static part
+
+type pkgIndex struct {
+	values  map[string]ast.Expr        // package-level var / const name -> initialiser
+	funcs   map[string]*ast.FuncDecl   // package functions (no receiver)
+	methods map[string]*ast.FuncDecl   // "Recv.Name"
+}
+
+func indexPackage(dir string) (*pkgIndex, error) {
 	fset := token.NewFileSet()
-	f, err := parser.ParseFile(fset, file, nil, 0)
+	ents, err := os.ReadDir(dir)
+	if err != nil {
+		return nil, err
+	}
+	ix := &pkgIndex{values: map[string]ast.Expr{}, funcs: map[string]*ast.FuncDecl{}, methods: map[string]*ast.FuncDecl{}}
+	for _, e := range ents {
+		n := e.Name()
+		if e.IsDir() || !strings.HasSuffix(n, ".go") || strings.HasSuffix(n, "_test.go") {
+			continue
+		}
+		f, err := parser.ParseFile(fset, filepath.Join(dir, n), nil, 0)
+		if err != nil {
+			return nil, err
+		}
+		for _, d := range f.Decls {
+			switch d := d.(type) {
+			case *ast.GenDecl:
+				if d.Tok != token.VAR && d.Tok != token.CONST {
+					continue
+				}
+				for _, sp := range d.Specs {
+					vs, ok := sp.(*ast.ValueSpec)
+					if !ok {
+						continue
+					}
+					for i, id := range vs.Names {
+						if i < len(vs.Values) {
+							ix.values[id.Name] = vs.Values[i]
+						}
+					}
+				}
+			case *ast.FuncDecl:
+				if d.Body == nil {
+					continue
+				}
+				if d.Recv == nil {
+					ix.funcs[d.Name.Name] = d
+					continue
+				}
+				if len(d.Recv.List) == 1 {
+					t := d.Recv.List[0].Type
+					if st, ok := t.(*ast.StarExpr); ok {
+						t = st.X
+					}
+					if id, ok := t.(*ast.Ident); ok {
+						ix.methods[id.Name+"."+d.Name.Name] = d
+					}
+				}
+			}
+		}
+	}
+	return ix, nil
+}
+
+// timeConst: the layout constants of package time a formatter may name
+var timeConsts = map[string]string{"RFC3339": time.RFC3339, "RFC3339Nano": time.RFC3339Nano, "DateTime": time.DateTime, "DateOnly": time.DateOnly, "TimeOnly": time.TimeOnly}
+
+// localDef finds the initialiser of a local identifier in a function body (x := e, var x = e), if it is
+// assigned exactly once.
+func localDef(fd *ast.FuncDecl, name string) ast.Expr {
+	var found ast.Expr
+	n := 0
+	ast.Inspect(fd.Body, func(x ast.Node) bool {
+		switch s := x.(type) {
+		case *ast.AssignStmt:
+			for i, l := range s.Lhs {
+				if id, ok := l.(*ast.Ident); ok && id.Name == name && len(s.Rhs) == len(s.Lhs) {
+					found = s.Rhs[i]
+					n++
+				}
+			}
+		case *ast.ValueSpec:
+			for i, id := range s.Names {
+				if id.Name == name && i < len(s.Values) {
+					found = s.Values[i]
+					n++
+				}
+			}
+		}
+		return true
+	})
+	if n == 1 {
+		return found
+	}
+	return nil
+}
+
+func (ix *pkgIndex) resolveString(e ast.Expr, fd *ast.FuncDecl, depth int) (string, bool) {
+	if depth > 6 {
+		return "", false
+	}
+	switch e := e.(type) {
+	case *ast.BasicLit:
+		if e.Kind == token.STRING {
+			s, err := strconv.Unquote(e.Value)
+			return s, err == nil
+		}
+	case *ast.ParenExpr:
+		return ix.resolveString(e.X, fd, depth+1)
+	case *ast.BinaryExpr:
+		if e.Op == token.ADD {
+			a, ok1 := ix.resolveString(e.X, fd, depth+1)
+			b, ok2 := ix.resolveString(e.Y, fd, depth+1)
+			return a + b, ok1 && ok2
+		}
+	case *ast.Ident:
+		if fd != nil {
+			if d := localDef(fd, e.Name); d != nil {
+				return ix.resolveString(d, fd, depth+1)
+			}
+		}
+		if d, ok := ix.values[e.Name]; ok {
+			return ix.resolveString(d, nil, depth+1)
+		}
+	case *ast.SelectorExpr:
+		if p, ok := e.X.(*ast.Ident); ok && p.Name == "time" {
+			s, ok := timeConsts[e.Sel.Name]
+			return s, ok
+		}
+	case *ast.CallExpr: // string(x)
+		if id, ok := e.Fun.(*ast.Ident); ok && id.Name == "string" && len(e.Args) == 1 {
+			return ix.resolveString(e.Args[0], fd, depth+1)
+		}
+	}
+	return "", false
+}
+
+func (ix *pkgIndex) resolveStrings(e ast.Expr, fd *ast.FuncDecl, depth int) ([]string, bool) {
+	if depth > 6 {
+		return nil, false
+	}
+	switch e := e.(type) {
+	case *ast.CompositeLit:
+		var out []string
+		for _, el := range e.Elts {
+			if kv, ok := el.(*ast.KeyValueExpr); ok {
+				el = kv.Value
+			}
+			s, ok := ix.resolveString(el, fd, depth+1)
+			if !ok {
+				return nil, false
+			}
+			out = append(out, s)
+		}
+		return out, true
+	case *ast.ParenExpr:
+		return ix.resolveStrings(e.X, fd, depth+1)
+	case *ast.Ident:
+		if fd != nil {
+			if d := localDef(fd, e.Name); d != nil {
+				return ix.resolveStrings(d, fd, depth+1)
+			}
+		}
+		if d, ok := ix.values[e.Name]; ok {
+			return ix.resolveStrings(d, nil, depth+1)
+		}
+	case *ast.SliceExpr: // xs[:]
+		if e.Low == nil && e.High == nil {
+			return ix.resolveStrings(e.X, fd, depth+1)
+		}
+	}
+	return nil, false
+}
+
+// parseLoop finds, in fd, a range loop whose body calls time.ParseInLocation / time.Parse with the loop
+// value as layout, and returns the ranged expression.
+func parseLoop(fd *ast.FuncDecl) ast.Expr {
+	var ranged ast.Expr
+	ast.Inspect(fd.Body, func(x ast.Node) bool {
+		rs, ok := x.(*ast.RangeStmt)
+		if !ok || ranged != nil {
+			return true
+		}
+		val, _ := rs.Value.(*ast.Ident)
+		if val == nil {
+			return true
+		}
+		ast.Inspect(rs.Body, func(y ast.Node) bool {
+			ce, ok := y.(*ast.CallExpr)
+			if !ok || len(ce.Args) == 0 {
+				return true
+			}
+			se, ok := ce.Fun.(*ast.SelectorExpr)
+			if !ok {
+				return true
+			}
+			if p, ok := se.X.(*ast.Ident); !ok || p.Name != "time" || (se.Sel.Name != "ParseInLocation" && se.Sel.Name != "Parse") {
+				return true
+			}
+			if a, ok := ce.Args[0].(*ast.Ident); ok && a.Name == val.Name {
+				ranged = rs.X
+			}
+			return true
+		})
+		return true
+	})
+	return ranged
+}
+
+func paramIndex(fd *ast.FuncDecl, name string) int {
+	i := 0
+	for _, f := range fd.Type.Params.List {
+		for _, id := range f.Names {
+			if id.Name == name {
+				return i
+			}
+			i++
+		}
+		if len(f.Names) == 0 {
+			i++
+		}
+	}
+	return -1
+}
+
+// layoutsOf: the []string that reaches the parse loop of method fd (directly, or through a package
+// function / method of the package it calls, up to two levels deep).
+func (ix *pkgIndex) layoutsOf(fd *ast.FuncDecl, depth int) ([]string, bool) {
+	if fd == nil || depth > 2 {
+		return nil, false
+	}
+	if x := parseLoop(fd); x != nil {
+		if id, ok := x.(*ast.Ident); ok && paramIndex(fd, id.Name) >= 0 && localDef(fd, id.Name) == nil {
+			return nil, false // a parameter: the caller resolves it
+		}
+		return ix.resolveStrings(x, fd, 0)
+	}
+	var out []string
+	found := false
+	ast.Inspect(fd.Body, func(x ast.Node) bool {
+		ce, ok := x.(*ast.CallExpr)
+		if !ok || found {
+			return true
+		}
+		var callee *ast.FuncDecl
+		switch f := ce.Fun.(type) {
+		case *ast.Ident:
+			callee = ix.funcs[f.Name]
+		case *ast.SelectorExpr: // a method of the package called on some value: match by name if unique
+			var cands []*ast.FuncDecl
+			for k, m := range ix.methods {
+				if strings.HasSuffix(k, "."+f.Sel.Name) {
+					cands = append(cands, m)
+				}
+			}
+			if len(cands) == 1 {
+				callee = cands[0]
+			}
+		}
+		if callee == nil || callee == fd {
+			return true
+		}
+		if rx := parseLoop(callee); rx != nil {
+			if id, ok := rx.(*ast.Ident); ok {
+				if pi := paramIndex(callee, id.Name); pi >= 0 && localDef(callee, id.Name) == nil {
+					if pi < len(ce.Args) {
+						if ls, ok := ix.resolveStrings(ce.Args[pi], fd, 0); ok {
+							out, found = ls, true
+						}
+					}
+					return true
+				}
+			}
+			if ls, ok := ix.resolveStrings(rx, callee, 0); ok {
+				out, found = ls, true
+			}
+			return true
+		}
+		if ls, ok := ix.layoutsOf(callee, depth+1); ok {
+			out, found = ls, true
+		}
+		return true
+	})
+	return out, found
+}
+
+// formatFacts: layout of the .Format call reachable from fd, and whether Round(time.Second) and UTC()
+// occur on the way (in fd or in a package function it calls).
+func (ix *pkgIndex) formatFacts(fd *ast.FuncDecl, depth int) (layout string, okLayout, rounds, utc bool) {
+	if fd == nil || depth > 2 {
+		return
+	}
+	ast.Inspect(fd.Body, func(n ast.Node) bool {
+		ce, ok := n.(*ast.CallExpr)
+		if !ok {
+			return true
+		}
+		switch f := ce.Fun.(type) {
+		case *ast.SelectorExpr:
+			switch f.Sel.Name {
+			case "Format", "AppendFormat":
+				if len(ce.Args) >= 1 && !okLayout {
+					layout, okLayout = ix.resolveString(ce.Args[len(ce.Args)-1], fd, 0)
+				}
+			case "UTC":
+				utc = true
+			case "Round":
+				if len(ce.Args) == 1 {
+					if a, ok := ce.Args[0].(*ast.SelectorExpr); ok && a.Sel.Name == "Second" {
+						rounds = true
+					}
+				}
+			}
+		case *ast.Ident:
+			if callee := ix.funcs[f.Name]; callee != nil && callee != fd {
+				l, okl, r, u := ix.formatFacts(callee, depth+1)
+				if okl && !okLayout {
+					layout, okLayout = l, true
+				}
+				rounds, utc = rounds || r, utc || u
+			}
+		}
+		return true
+	})
+	return
+}
+
+// ---------------------------------------------------------------- dynamic part
+
+type probeShape struct {
+	layout string // a Go layout that writes the probe text (fraction written with zeros/digits)
+	zone   int    // offset of the zone the probe instant is presented in, seconds
+	lit    string // a literal suffix appended after formatting (the text "+07:00")
+}
+
+func shapeTokens(p probeShape) []int { return layoutTokens(p.layout + p.lit) }
+
+// probeUniverse: base x {no fraction, fraction} x {no zone, Z, numeric zone +02:00, numeric zone -05:30,
+// the literal text +07:00}
+func probeUniverse(base string) []probeShape {
+	var out []probeShape
+	for _, frac := range []string{"", ".000000000"} {
+		out = append(out,
+			probeShape{base + frac, 0, ""},
+			probeShape{base + frac + "Z", 0, ""},
+			probeShape{base + frac + "-07:00", 2 * 3600, ""},
+			probeShape{base + frac + "-07:00", -(5*3600 + 1800), ""},
+			probeShape{base + frac, 0, "+07:00"},
+		)
+	}
+	return out
+}
+
+// accepted: the shapes of the universe that get accepts and reads as the expected instant. A shape is
+// listed once (the two numeric zones must both be read correctly). expect maps the probe instant to
+// what the getter should return for this type (date only / time of day only).
+func accepted(base string, get func(string) (time.Time, error), expect func(t time.Time, zone *time.Location) time.Time) (ok [][]int, wrong [][]int) {
+	inst := time.Date(2031, 7, 9, 13, 24, 57, 0, time.UTC)
+	byTok := map[string]int{} // 1 accepted exactly, 2 accepted with a wrong instant, 3 rejected
+	order := []string{}
+	toks := map[string][]int{}
+	for _, p := range probeUniverse(base) {
+		loc := time.UTC
+		if p.zone != 0 {
+			loc = time.FixedZone("p", p.zone)
+		}
+		local := inst.In(loc)
+		if p.zone != 0 {
+			// same wall clock in the zone, so that date-only / time-only shapes stay meaningful
+			local = time.Date(2031, 7, 9, 13, 24, 57, 0, loc)
+		}
+		txt := local.Format(p.layout) + p.lit
+		if strings.Contains(p.layout, ".000000000") {
+			txt = strings.Replace(txt, ".000000000", ".250000000", 1)
+			local = local.Add(250 * time.Millisecond)
+		}
+		want := expect(local, loc)
+		if p.lit != "" {
+			// the text +07:00 read as a numeric zone
+			want = expect(time.Date(local.Year(), local.Month(), local.Day(), local.Hour(), local.Minute(), local.Second(), local.Nanosecond(), time.FixedZone("l", 7*3600)), time.FixedZone("l", 7*3600))
+		}
+		k := leanNatList(shapeTokens(p))
+		if _, seen := byTok[k]; !seen {
+			order = append(order, k)
+			toks[k] = shapeTokens(p)
+		}
+		got, err := get(txt)
+		st := 3
+		if err == nil {
+			st = 2
+			if got.Equal(want) {
+				st = 1
+			}
+		}
+		if st > byTok[k] {
+			byTok[k] = st
+		}
+	}
+	for _, k := range order {
+		switch byTok[k] {
+		case 1:
+			ok = append(ok, toks[k])
+		case 2:
+			wrong = append(wrong, toks[k])
+		}
+	}
+	return
+}
+
+func genTimeLayouts(outDir string) (string, error) {
+	// ---- dynamic
+	full := func(t time.Time, _ *time.Location) time.Time { return t }
+	dateOnly := func(t time.Time, loc *time.Location) time.Time {
+		return time.Date(t.Year(), t.Month(), t.Day(), 0, 0, 0, 0, loc)
+	}
+	clockOnly := func(t time.Time, loc *time.Location) time.Time {
+		return time.Date(0, 1, 1, t.Hour(), t.Minute(), t.Second(), t.Nanosecond(), loc)
+	}
+	dtOK, dtWrong := accepted("2006-01-02T15:04:05", func(s string) (time.Time, error) { return model.NewDateTimeType(s).GetTime() }, full)
+	dOK, dWrong := accepted("2006-01-02", func(s string) (time.Time, error) { return model.NewDateType(s).GetTime() }, dateOnly)
+	tOK, tWrong := accepted("15:04:05", func(s string) (time.Time, error) { return model.NewTimeType(s).GetTime() }, clockOnly)
+
+	// what the formatter writes: shape, rounding, UTC
+	inst := time.Date(2031, 7, 9, 13, 24, 57, 0, time.UTC)
+	written := string(*model.NewDateTimeTypeFromTime(inst))
+	var fmtDyn []int
+	fmtKnown := false
+	for _, p := range probeUniverse("2006-01-02T15:04:05") {
+		if p.zone == 0 && p.lit == "" && !strings.Contains(p.layout, ".000000000") && inst.Format(p.layout) == written {
+			fmtDyn, fmtKnown = shapeTokens(p), true
+		}
+	}
+	roundsDyn := string(*model.NewDateTimeTypeFromTime(inst.Add(400 * time.Millisecond))) == written &&
+		string(*model.NewDateTimeTypeFromTime(inst.Add(-400 * time.Millisecond))) == written &&
+		string(*model.NewDateTimeTypeFromTime(inst.Add(-600 * time.Millisecond))) != written
+	utcDyn := string(*model.NewDateTimeTypeFromTime(inst.In(time.FixedZone("e", 2*3600)))) == written &&
+		string(*model.NewDateTimeTypeFromTime(inst.In(time.FixedZone("w", -(5*3600 + 1800))))) == written
+
+	// ---- static
+	ix, err := indexPackage(filepath.Join(RepoDir(), "model"))
 	if err != nil {
 		return "", err
 	}
-	parse := map[string][]string{} // receiver type -> layouts tried by GetTime
-	format := ""
-	rounds, utc := false, false
-	for _, d := range f.Decls {
-		fd, ok := d.(*ast.FuncDecl)
-		if !ok || fd.Body == nil {
+	parse := map[string][]string{}
+	astParseKnown := true
+	for _, t := range []string{"DateTimeType", "DateType", "TimeType"} {
+		ls, ok := ix.layoutsOf(ix.methods[t+".GetTime"], 0)
+		if !ok || len(ls) == 0 {
+			astParseKnown = false
 			continue
 		}
-		if fd.Name.Name == "GetTime" && fd.Recv != nil && len(fd.Recv.List) == 1 {
-			recv := ""
-			if st, ok := fd.Recv.List[0].Type.(*ast.StarExpr); ok {
-				if id, ok := st.X.(*ast.Ident); ok {
-					recv = id.Name
-				}
-			}
-			ast.Inspect(fd.Body, func(n ast.Node) bool {
-				as, ok := n.(*ast.AssignStmt)
-				if !ok || len(as.Lhs) != 1 || len(as.Rhs) != 1 {
-					return true
-				}
-				if id, ok := as.Lhs[0].(*ast.Ident); !ok || id.Name != "allowedFormats" {
-					return true
-				}
-				cl, ok := as.Rhs[0].(*ast.CompositeLit)
-				if !ok {
-					return true
-				}
-				for _, e := range cl.Elts {
-					if bl, ok := e.(*ast.BasicLit); ok && bl.Kind == token.STRING {
-						s, _ := strconv.Unquote(bl.Value)
-						parse[recv] = append(parse[recv], s)
-					}
-				}
-				return true
-			})
-		}
-		if fd.Name.Name == "NewDateTimeTypeFromTime" {
-			ast.Inspect(fd.Body, func(n ast.Node) bool {
-				ce, ok := n.(*ast.CallExpr)
-				if !ok {
-					return true
-				}
-				se, ok := ce.Fun.(*ast.SelectorExpr)
-				if !ok {
-					return true
-				}
-				switch se.Sel.Name {
-				case "Format":
-					if len(ce.Args) == 1 {
-						if bl, ok := ce.Args[0].(*ast.BasicLit); ok && bl.Kind == token.STRING {
-							format, _ = strconv.Unquote(bl.Value)
-						}
-					}
-				case "UTC":
-					utc = true
-				case "Round":
-					if len(ce.Args) == 1 {
-						if a, ok := ce.Args[0].(*ast.SelectorExpr); ok && a.Sel.Name == "Second" {
-							rounds = true
-						}
-					}
-				}
-				return true
-			})
-		}
+		parse[t] = ls
 	}
-	for _, t := range []string{"DateTimeType", "DateType", "TimeType"} {
-		if len(parse[t]) == 0 {
-			return "", fmt.Errorf("anchor lost: (*%s).GetTime has no allowedFormats literal", t)
-		}
-	}
-	if format == "" {
-		return "", fmt.Errorf("anchor lost: NewDateTimeTypeFromTime has no Format(\"...\") call")
-	}
+	format, astFmtKnown, rounds, utc := ix.formatFacts(ix.funcs["NewDateTimeTypeFromTime"], 0)
+
 	var b strings.Builder
-	b.WriteString("/-! GENERATED by go/cmd/translate (generator `timelayouts`) from model/commondatatypes_additions.go -- do not edit.\n")
-	b.WriteString("    Layouts as token lists: 1 = optional fraction \".999999999\", 2 = literal \"Z\", 3 = numeric zone \"-07:00\",\n")
-	b.WriteString("    4 = the text \"+07:00\" (not a zone element of package time: matches only itself), other byte b = 100 + b. -/\n")
+	b.WriteString("/-! GENERATED by go/cmd/translate (generator `timelayouts`) -- do not edit.\n")
+	b.WriteString("    Token lists: 1 = fraction, 2 = literal \"Z\", 3 = numeric zone, 4 = the text \"+07:00\" (not a zone element of\n")
+	b.WriteString("    package time), other byte b = 100 + b. `…Accepts` / `dateTimeWritten` … are DYNAMIC facts (the real code\n")
+	b.WriteString("    probed with a fixed universe of text shapes); `dateTimeFormat`, `…Parse` are the layout strings found in the\n")
+	b.WriteString("    source (static cross-check; `astParseKnown` / `astFormatKnown` say whether they could be recovered). -/\n")
 	b.WriteString("namespace Spine.Generated.TimeLayouts\n\n")
-	fmt.Fprintf(&b, "/-- NewDateTimeTypeFromTime formats with %q -/\ndef dateTimeFormat : List Nat := %s\n\n", format, leanNatList(layoutTokens(format)))
-	fmt.Fprintf(&b, "/-- ... after t.Round(time.Second) -/\ndef dateTimeRoundsToSecond : Bool := %v\n\n", rounds)
-	fmt.Fprintf(&b, "/-- ... and .UTC() -/\ndef dateTimeConvertsToUTC : Bool := %v\n\n", utc)
+	fmt.Fprintf(&b, "/-- shapes (*DateTimeType).GetTime accepts and reads as the right instant -/\ndef dateTimeAccepts : List (List Nat) := %s\n\n", leanListOfLists(dtOK))
+	fmt.Fprintf(&b, "/-- shapes it accepts but reads as another instant -/\ndef dateTimeMisreads : List (List Nat) := %s\n\n", leanListOfLists(dtWrong))
+	fmt.Fprintf(&b, "def dateAccepts : List (List Nat) := %s\n\ndef dateMisreads : List (List Nat) := %s\n\n", leanListOfLists(dOK), leanListOfLists(dWrong))
+	fmt.Fprintf(&b, "def timeAccepts : List (List Nat) := %s\n\ndef timeMisreads : List (List Nat) := %s\n\n", leanListOfLists(tOK), leanListOfLists(tWrong))
+	fmt.Fprintf(&b, "/-- the shape NewDateTimeTypeFromTime writes (%q for 2031-07-09T13:24:57Z); recognised: %v -/\ndef dateTimeWritten : List Nat := %s\ndef dateTimeWrittenKnown : Bool := %v\n\n", written, fmtKnown, leanNatList(fmtDyn), fmtKnown)
+	fmt.Fprintf(&b, "/-- +-0.4 s are written as the same second, -0.6 s as another -/\ndef dateTimeRoundsToSecondDyn : Bool := %v\n\n", roundsDyn)
+	fmt.Fprintf(&b, "/-- the same instant presented in zones +02:00 and -05:30 is written identically -/\ndef dateTimeConvertsToUTCDyn : Bool := %v\n\n", utcDyn)
+
+	fmt.Fprintf(&b, "/-- static: could the layout lists of the three GetTime methods be recovered from the source? -/\ndef astParseKnown : Bool := %v\n\n", astParseKnown)
+	fmt.Fprintf(&b, "/-- static: could the formatting layout be recovered from the source? -/\ndef astFormatKnown : Bool := %v\n\n", astFmtKnown)
+	// an instant converted to UTC is written with "Z" by the zone element "Z07:00"
+	fmtTokens := layoutTokens(format)
+	if utc && strings.HasSuffix(format, "Z07:00") {
+		fmtTokens = layoutTokens(strings.TrimSuffix(format, "Z07:00") + "Z")
+	}
+	fmt.Fprintf(&b, "/-- static: NewDateTimeTypeFromTime formats with %q -/\ndef dateTimeFormat : List Nat := %s\n\n", format, leanNatList(fmtTokens))
+	fmt.Fprintf(&b, "/-- static: a Round(time.Second) / a UTC() call is on the way to the Format call -/\ndef dateTimeRoundsToSecond : Bool := %v\ndef dateTimeConvertsToUTC : Bool := %v\n\n", rounds, utc)
 	emit := func(name, recv string) {
-		fmt.Fprintf(&b, "/-- (*%s).GetTime tries, in order: %s -/\ndef %s : List (List Nat) := [\n", recv, strings.Join(quoteAll(parse[recv]), ", "), name)
-		for i, l := range parse[recv] {
-			sep := ","
-			if i == len(parse[recv])-1 {
-				sep = ""
-			}
-			fmt.Fprintf(&b, "  %s%s\n", leanNatList(layoutTokens(l)), sep)
+		var ls [][]int
+		for _, l := range parse[recv] {
+			ls = append(ls, layoutTokens(l))
 		}
-		b.WriteString("]\n\n")
+		fmt.Fprintf(&b, "/-- static: (*%s).GetTime tries, in order: %s -/\ndef %s : List (List Nat) := %s\n\n", recv, strings.Join(quoteAll(parse[recv]), ", "), name, leanListOfLists(ls))
 	}
 	emit("dateTimeParse", "DateTimeType")
 	emit("dateParse", "DateType")
@@ -155,7 +577,13 @@ func genTimeLayouts(outDir string) (string, error) {
 	if err := writeFile(outDir, "TimeLayouts.lean", b.String()); err != nil {
 		return "", err
 	}
-	return fmt.Sprintf("format %q; %d/%d/%d parse layouts (datetime/date/time)", format, len(parse["DateTimeType"]), len(parse["DateType"]), len(parse["TimeType"])), nil
+	keys := []string{}
+	for k := range parse {
+		keys = append(keys, fmt.Sprintf("%s:%d", k, len(parse[k])))
+	}
+	sort.Strings(keys)
+	return fmt.Sprintf("dynamic: writes %q, accepts %d/%d/%d shapes (datetime/date/time), misreads %d/%d/%d; static: format %q (known %v), parse layouts %s (known %v)",
+		written, len(dtOK), len(dOK), len(tOK), len(dtWrong), len(dWrong), len(tWrong), format, astFmtKnown, strings.Join(keys, " "), astParseKnown), nil
 }
 
 func quoteAll(xs []string) []string {
